@@ -2,6 +2,6 @@
 # round 2 of seeded changes (seeded/<ID>b) against the check of their property
 cd /verif
 for id in "$@"; do
-  p=${id%[bcdef]}
+  p=${id%[bcdefg]}
   timeout 3000 /venv/bin/python tools/seeded_eval.py /verif/seeded/$id/patch.diff $p 2>&1 | grep -v WARNING
 done
